@@ -130,7 +130,7 @@ func c05Units(tier string, seed int64) []Unit {
 	}
 	for pi, mk := range progs {
 		for s := 0; s < nseeds; s++ {
-			if quick && pi == 2 && s >= 2 {
+			if quick && (pi == 2 || pi == 12) && s >= 2 {
 				continue // the deep-recursion program: every invocation walks 42 frames; two seeds in the quick tier
 			}
 			pi, mk := pi, mk
